@@ -84,7 +84,7 @@ func Do(f func() error) (err error) {
 
 func badgerOpts(dir string, mem bool) badger.Options {
 	o := badger.DefaultOptions(dir).WithLoggingLevel(badger.ERROR).
-		WithMemTableSize(8 << 20).WithValueLogFileSize(16 << 20).WithNumMemtables(2).
+		WithValueLogFileSize(16 << 20).WithNumMemtables(2).
 		WithBlockCacheSize(4 << 20).WithIndexCacheSize(0).WithNumCompactors(2).WithValueThreshold(64 << 10)
 	if mem {
 		o = o.WithInMemory(true)
